@@ -10,6 +10,7 @@ from numbers import Real
 from warnings import warn
 
 import numpy as np
+import sympy
 
 from qupulse.serialization import Serializer, PulseRegistryType
 from qupulse.program.volatile import VolatileRepetitionCount
@@ -81,9 +82,13 @@ class RepetitionPulseTemplate(LoopPulseTemplate, ParameterConstrainer, Measureme
             # declare them only once for all repetitions
             return RepetitionPulseTemplate(self, repetition_count)
         else:
+            # a negative count plays nothing (it is clamped to 0 on instantiation): clamp the factors as well, the
+            # product of two negative counts is positive
+            own_count = sympy.Max(0, self.repetition_count.sympified_expression)
+            other_count = sympy.Max(0, ExpressionScalar.make(repetition_count).sympified_expression)
             return RepetitionPulseTemplate(
                 self.body,
-                self.repetition_count * ExpressionScalar.make(repetition_count),
+                ExpressionScalar(own_count * other_count),
                 parameter_constraints=self.parameter_constraints,
                 measurements=self.measurement_declarations
             )
